@@ -1,67 +1,185 @@
 package props
 
+// C15 at the boundary of the listener's accept backlog: first datagrams from
+// N distinct peers (N around the backlog size) reach a listener whose
+// application accepts only a few of them; then everything is closed. Close must
+// return, the reader goroutine must end with the transport, and every session
+// the listener created - handed out or not - must be gone.
+
 import (
+	"crypto/rand"
+	"fmt"
+	"net"
+	"runtime"
 	"strings"
+	"sync"
+	"sync/atomic"
 	"testing"
+	"time"
 
 	kcp "github.com/xtaci/kcp-go/v5"
 	"pgregory.net/rapid"
 	"verif/harness/hx"
+	"verif/harness/sim"
+	"verif/harness/wire"
 )
 
-// TestC15PoolAutoTune: the FEC decoder's auto-tune path (peer ratio differs,
-// including "same total, different split") under the pool sanitizer: no buffer
-// is recycled twice, none is written after having been recycled.
-func TestC15PoolAutoTune(t *testing.T) {
+type feedDatagram struct {
+	data []byte
+	addr net.Addr
+}
+
+// feedConn is a transport the test feeds by hand; what the library writes is dropped.
+type feedConn struct {
+	in    chan feedDatagram
+	die   chan struct{}
+	once  sync.Once
+	reads atomic.Int64 // ReadFrom calls begun
+	local net.Addr
+}
+
+func newFeedConn(n int) *feedConn {
+	return &feedConn{in: make(chan feedDatagram, n), die: make(chan struct{}), local: &net.UDPAddr{IP: net.IPv4(10, 9, 9, 9), Port: 9999}}
+}
+func (c *feedConn) ReadFrom(p []byte) (int, net.Addr, error) {
+	c.reads.Add(1)
+	select {
+	case d := <-c.in:
+		return copy(p, d.data), d.addr, nil
+	case <-c.die:
+		return 0, nil, net.ErrClosed
+	}
+}
+func (c *feedConn) WriteTo(p []byte, addr net.Addr) (int, error) {
+	select {
+	case <-c.die:
+		return 0, net.ErrClosed
+	default:
+		return len(p), nil
+	}
+}
+func (c *feedConn) Close() error                       { c.once.Do(func() { close(c.die) }); return nil }
+func (c *feedConn) LocalAddr() net.Addr                { return c.local }
+func (c *feedConn) SetDeadline(t time.Time) error      { return nil }
+func (c *feedConn) SetReadDeadline(t time.Time) error  { return nil }
+func (c *feedConn) SetWriteDeadline(t time.Time) error { return nil }
+
+// within runs f and reports whether it returned within d of real time. The
+// limit is only there to turn "never returns" into a report: f is a call that
+// has nothing to wait for.
+func within(d time.Duration, f func()) bool {
+	done := make(chan struct{})
+	go func() { defer close(done); f() }()
+	select {
+	case <-done:
+		return true
+	case <-time.After(d):
+		return false
+	}
+}
+
+func TestC15BacklogBoundary(t *testing.T) {
 	rec := hx.NewRecorder(t)
+	const backlog = 128 // the library's accept backlog
+	const patience = 30 * time.Second
 	rapid.Check(t, func(rt *rapid.T) {
-		ds, ps := drawRatio(rt, "snd.", false)
-		dr, pr := drawRatio(rt, "rcv.", false)
-		sameTotal := rapid.IntRange(0, 2).Draw(rt, "sameTotal") == 0 && ds+ps >= 3
-		if sameTotal {
-			dr = rapid.IntRange(1, ds+ps-1).Draw(rt, "drSameTotal")
-			pr = ds + ps - dr
+		cipher := rapid.SampledFrom([]string{"null", "none", "aes-128", "salsa20"}).Draw(rt, "cipher")
+		key := rapid.SliceOfN(rapid.Byte(), keyLenFor(cipher), keyLenFor(cipher)).Draw(rt, "key")
+		peers := rapid.SampledFrom([]int{1, 5, backlog - 1, backlog, backlog + 1, backlog + 2, backlog + 40}).Draw(rt, "peers")
+		accepts := rapid.SampledFrom([]int{0, 0, 1, 3}).Draw(rt, "accepts")
+		connFirst := rapid.Bool().Draw(rt, "closeTransportFirst")
+		second := rapid.Bool().Draw(rt, "secondDatagramFromEveryPeer")
+		crypto, err := wire.NewCrypto(cipher, key)
+		if err != nil {
+			rt.Fatalf("setup: %v", err)
 		}
-		if ds == dr && ps == pr {
-			return
+		what := fmt.Sprintf("cipher %s, %d peers send their first datagram, the application accepts %d, transport closed first: %v", cipher, peers, accepts, connFirst)
+		runtime.GC()
+		baseG := len(realLibGoroutines())
+		fc := newFeedConn(2*peers + 8)
+		blk, _ := sim.NewBlockCrypt(cipher, key)
+		L, err := kcp.ServeConn(blk, 0, 0, fc)
+		if err != nil {
+			rt.Fatalf("setup: %v", err)
 		}
-		n := ds + ps
-		groups := (258+2*n)/n + 12
-		lossEvery := rapid.IntRange(0, 9).Draw(rt, "lossEvery")
-		kcp.VerifPoolMode(kcp.VerifPoolQuarantine, 100000, false)
-		defer kcp.VerifPoolMode(kcp.VerifPoolOff, 0, false)
-		st := newFECStream(ds, ps, rapid.Uint32Range(0, 1<<20).Draw(rt, "group")*uint32(n), 0x15)
-		dec := kcp.VerifNewFECDecoder(dr, pr)
-		fed, retunes := 0, 0
-		last := dec.State()
-		for g := 0; g < groups; g++ {
-			for i, p := range st.group([]int{80, 300, 24}, false) {
-				if lossEvery > 0 && (g*n+i)%(lossEvery+3) == lossEvery {
-					continue
-				}
-				dec.Release(dec.Decode(p.Raw))
-				fed++
-				if s := dec.State(); s.DecData != last.DecData || s.DecParity != last.DecParity {
-					retunes++
-					last = s
-				}
+		fed := 0
+		feed := func(i int, sn uint32) {
+			seg := wire.Segment{Conv: 0x1000 + uint32(i), Cmd: 81, Wnd: 128, Sn: sn, Data: []byte{byte(i), 2, 3}}.Append(nil)
+			var nonce [16]byte
+			rand.Read(nonce[:])
+			fc.in <- feedDatagram{crypto.Seal(nonce[:], seg), &net.UDPAddr{IP: net.IPv4(10, 1, byte(i>>8), byte(i)), Port: 20000 + i}}
+			fed++
+		}
+		for i := 0; i < peers; i++ {
+			feed(i, 0)
+		}
+		if second {
+			for i := 0; i < peers; i++ {
+				feed(i, 1)
 			}
 		}
-		rep := kcp.VerifPoolReport()
-		if len(rep.Faults) > 0 {
-			rt.Fatalf("C15 (pool sanitizer, FEC auto-tune: sender %d/%d, receiver %d/%d, %d packets, %d retunes): %s", ds, ps, dr, pr, fed, retunes, strings.Join(rep.Faults, "\n"))
+		// the reader has taken everything when it begins the read after the last datagram
+		consumed := within(patience, func() {
+			for fc.reads.Load() < int64(fed)+1 {
+				time.Sleep(200 * time.Microsecond)
+			}
+		})
+		if !consumed {
+			rt.Fatalf("C15 (accept backlog): the listener's reader stopped reading after %d of %d datagrams and has not come back for %v; %s\n%s",
+				fc.reads.Load()-1, fed, patience, what, strings.Join(realLibGoroutines(), "\n\n"))
 		}
-		cl := []string{"autotune_cases"}
-		if sameTotal {
-			cl = append(cl, "same_total_different_split")
+		var mine []*kcp.UDPSession
+		for i := 0; i < accepts; i++ {
+			L.SetReadDeadline(time.Now().Add(2 * time.Second))
+			if c, err := L.AcceptKCP(); err == nil {
+				mine = append(mine, c)
+			}
 		}
-		if retunes > 0 {
-			cl = append(cl, "retuned")
+		tbl, _ := L.VerifSessions()
+		created := len(tbl)
+		closeAll := func() {
+			if connFirst {
+				fc.Close()
+			}
+			L.Close()
+			fc.Close()
+			for _, c := range mine {
+				c.Close()
+			}
 		}
-		rec.Add("n_pool_gets", int64(rep.Gets))
-		rec.Case(hx.Hash64(ds, ps, dr, pr, lossEvery), retunes > 0, cl...)
+		if !within(patience, closeAll) {
+			rt.Fatalf("C15 (accept backlog): closing the listener, its transport and the %d accepted session(s) has not returned for %v; %s\n%s",
+				len(mine), patience, what, strings.Join(realLibGoroutines(), "\n\n"))
+		}
+		// every goroutine the listener and its sessions started is gone
+		deadline := time.Now().Add(patience)
+		for {
+			gs := realLibGoroutines()
+			if len(gs) <= baseG {
+				break
+			}
+			if time.Now().After(deadline) {
+				rt.Fatalf("C15 (accept backlog): %v after everything was closed %d goroutine(s) still run library code (%d before the case); %s\n%s",
+					patience, len(gs), baseG, what, gs[0])
+			}
+			time.Sleep(time.Millisecond)
+		}
+		if tbl, _ := L.VerifSessions(); len(tbl) != 0 {
+			rt.Fatalf("C15 (accept backlog): %d session(s) still in the closed listener's table; %s", len(tbl), what)
+		}
+		cl := []string{"backlog_cases"}
+		if peers > backlog {
+			cl = append(cl, "more_peers_than_backlog")
+		}
+		if peers == backlog || peers == backlog+1 {
+			cl = append(cl, "backlog_exactly_full_or_one_over")
+		}
+		if created > len(mine) {
+			cl = append(cl, "closed_with_unaccepted_sessions")
+		}
+		rec.Case(hx.Hash64(cipher, key, peers, accepts, connFirst, second), created > len(mine), cl...)
 		if rec.WantSample() {
-			rec.Sample(map[string]any{"sender": []int{ds, ps}, "receiver": []int{dr, pr}, "packets": fed, "retunes": retunes, "pool_gets": rep.Gets})
+			rec.Sample(map[string]any{"cipher": cipher, "peers": peers, "accepted": len(mine), "sessions_created": created, "transport_closed_first": connFirst})
 		}
 	})
 }
